@@ -41,6 +41,12 @@ func main() {
 		os.Exit(replay(os.Args[2]))
 	case "repro":
 		os.Exit(reproCmd(os.Args[2]))
+	case "racepass":
+		secs, _ := strconv.ParseFloat(os.Args[2], 64)
+		seed, _ := strconv.ParseInt(os.Getenv("VERIF_SEED"), 10, 64)
+		n := checks.RacePass(secs, seed)
+		fmt.Printf("racepass iterations=%d\n", n)
+		os.Exit(0)
 	default:
 		usage()
 	}
@@ -204,6 +210,10 @@ func run(id, tier string) int {
 		}(i)
 	}
 	wg.Wait()
+
+	if c.PostRun != nil {
+		c.PostRun(merged, tier)
+	}
 
 	// A crashed worker's suspect case is re-run in fresh subprocesses.
 	for _, f := range crashes {
